@@ -79,7 +79,13 @@ def updaterLine (st : UpRun) (lineNo : Nat) (line : String) : Except String (UpR
       let wasPending := u.st.pending
       let readIdx := u.base + u.st.cur
       let okBuild := !(st.installs[readIdx]?.getD ([], false)).2
-      let s1 := if wasPending then runEvs u.st [.drain, .readCur, .build okBuild] else runEvs u.st [.drain]
+      -- a version installed while this Get was rebuilding (after it read the bytes): its
+      -- notification must still be there for the next Get
+      let mid : Option (List UInt8) := (lookup fs "midinstall").bind unhex
+      let s1 := if wasPending then
+                  (if mid.isSome then runEvs u.st [.drain, .readCur, .install, .build okBuild]
+                   else runEvs u.st [.drain, .readCur, .build okBuild])
+                else runEvs u.st [.drain]
       let wantSrc := hexBytes (st.installs[u.base + s1.valueSrc]?.getD ([], false)).1
       let builds := (get "builds").toNat?.getD 0
       let id := (get "id").toNat?.getD 0
@@ -100,8 +106,13 @@ def updaterLine (st : UpRun) (lineNo : Nat) (line : String) : Except String (UpR
         -- correspondence
         (if get "src" == wantSrc && (get "err" == "1") == s1.err && builds == s1.builds && id == s1.valueId then [] else
           [s!"DIVERGE updater_get {tag} code=src:{get "src"},err:{get "err"},builds:{builds},id:{id} model=src:{wantSrc},err:{s1.err},builds:{s1.builds},id:{s1.valueId}"])
-      finish { st with upds := st.upds.set! i { u with st := s1, lastGetInstalls := st.installs.size, lastBuilds := builds, lastId := id } }
-        s!"get:{if wasPending then "rebuild" else "keep"}:{if okBuild then "ok" else "fail"}:installs_since{min 4 (st.installs.size - u.lastGetInstalls)}" outs
+      let upds1 := st.upds.set! i { u with st := s1, lastGetInstalls := st.installs.size, lastBuilds := builds, lastId := id }
+      let (installs2, upds2) := match mid with
+        | some v => (st.installs.push (v, false),
+                     upds1.mapIdx fun j (w : UState) => if j == i then w else { w with st := runEvs w.st [.install] })
+        | none => (st.installs, upds1)
+      finish { st with installs := installs2, upds := upds2 }
+        s!"get:{if mid.isSome then "midinstall:" else ""}{if wasPending then "rebuild" else "keep"}:{if okBuild then "ok" else "fail"}:installs_since{min 4 (st.installs.size - u.lastGetInstalls)}" outs
   | _ => if line.startsWith "#" || line.isEmpty then .ok (st, []) else .error s!"line {lineNo}: unknown line kind"
 
 end Setec.Driver
